@@ -155,16 +155,21 @@ def gen(rng, tier, i):
             host = rng.choice(["10.9.0.%d" % rng.randint(1, 200), "192.168.3.%d" % rng.randint(1, 9)])
         else:
             host = "fd09::%x" % rng.randint(1, 200)
+        mapped = None
+        if tk == "ipv4" and lname == "l-http" and rng.random() < 0.25:
+            # the client writes an IPv4 destination as an IPv4-mapped IPv6 literal: it is that IPv4 host which will be
+            # contacted, so it is that host the rules must see (a rule on 10.9.0.0/24 must not be slipped this way)
+            mapped = "::ffff:" + host
         udp = rng.random() < 0.2
         if tk != "domain" and rng.random() < 0.2:
             # a diverted (TPROXY) connection: no handshake, the target is the address the client dialled
-            lname, udp = "l-tp", False
+            lname, udp, mapped = "l-tp", False, None
             if (":" in host) != (":" in src):
                 src = sc.client_ip(":" in host)
         if udp and lname == "l-socks" and any(q["udp"] and q["listener"] == "l-socks" for q in reqs):
             udp = False  # SOCKS UDP associations all carry the target 0.0.0.0:0: keep at most one so it stays attributable
         feature = "UdpForward" if udp else "TcpForward"
-        reqs.append({"k": k, "listener": lname, "src": src, "host": host, "port": port, "tk": tk, "udp": udp, "feature": feature})
+        reqs.append({"k": k, "listener": lname, "src": src, "host": host, "port": port, "tk": tk, "udp": udp, "feature": feature, "mapped": mapped})
         pool["src_ips"].append(src)
         pool["tgt_hosts"].append(host)
         pool["ports"].append(port)
@@ -230,7 +235,7 @@ def gen(rng, tier, i):
             if r["udp"]:
                 # UDP over HTTP carries frames: the eager payload must be a well-formed frame holding the marker
                 early = rc.rpfm_frame(0, r["host"], r["port"], marker)
-            hs, proto = sc.client_handshake(li, r["host"], r["port"], early=early, variant="5p" if r["listener"] == "l-socks" else None, udp=r["udp"])
+            hs, proto = sc.client_handshake(li, r.get("mapped") or r["host"], r["port"], early=early, variant="5p" if r["listener"] == "l-socks" else None, udp=r["udp"])
             for o in hs:
                 o["on_fail"] = "continue"
             ops = hs + [op("recv_eof", timeout_ms=3000, label="rest", on_fail="continue")]
